@@ -120,6 +120,7 @@ extern real_t verif_nan_value, verif_inf_value;
 #define VEC_CLEAR(v) ((v).size = 0)
 #define VEC_PUSH(v, x) do { (v).data[(v).size] = (x); (v).size++; } while (0)
 #define OPT_VAL(o) ((o).val)
+#define UPTR_VAL(p) (p)
 #define OPT_SET(o, v) ((o).val = (v), (o).has = 1)
 #define OPT_VALUE_CHECKED(o) (*({ __CPROVER_assert(verif_thrown || (o).has, "optional has value"); &(o).val; }))
 #define ADDR_TMP(ct, x) (&((ct[1]){ x })[0])
